@@ -54,7 +54,9 @@ def shards(tier, seed):
                 out.append({'fmt': fmt, 'variants': list(vs), 'tier': tier, 'seed': seed})
     # simplest first within a format is kept; interleave formats so that a cap cuts evenly
     out.sort(key=lambda d: (len(d['variants']), C01_FORMATS.index(d['fmt']), d['variants']))
-    out = [{'part': 'open', 'fmt': fmt, 'variants': [], 'tier': tier, 'seed': seed} for fmt in OPEN_SUFFIX] + out
+    open_files = [[0, 1, 2], [2]] if tier == 'quick' else [[0, 1, 2], [1, 0], [2]]
+    out = [{'part': 'open', 'fmt': fmt, 'variants': vs, 'eol': eol, 'tier': tier, 'seed': seed}
+           for fmt in OPEN_SUFFIX for vs in open_files for eol in ('LF', 'CRLF')] + out
     return out
 
 
@@ -190,8 +192,8 @@ def run_open_shard(desc, deadline):
     fields = list(f.fields)
     scratch = tempfile.mkdtemp(dir='/dev/shm', prefix='c01_')
     try:
-        for variants in ([0, 1, 2], [1, 0], [2]):
-            for eol in ('LF', 'CRLF'):
+        for variants in [desc['variants']]:
+            for eol in [desc['eol']]:
                 for fn in (True, False):
                     _, recs, data = build(fmt, variants, eol, fn)
                     for gz in (False, True):
@@ -271,7 +273,8 @@ def replay_case(case):
     if case['sched'][0] == 'open':
         from engine.result import Deadline
         import time
-        full = run_open_shard({'part': 'open', 'fmt': case['fmt']}, Deadline(time.time() + 900))
+        full = run_open_shard({'part': 'open', 'fmt': case['fmt'], 'variants': case['variants'], 'eol': case['eol']},
+                              Deadline(time.time() + 900))
         return [{'kind': g['kind'], 'features': g['features'], 'observed': g['exemplars'][0]['observed'],
                  'expected': g['exemplars'][0]['expected'], 'traceback': g['exemplars'][0]['traceback']}
                 for g in full.fail_groups.values()]
